@@ -130,7 +130,7 @@ func c01Size(rng *fw.Rand, v int, margin int) (int, int) {
 }
 
 func c01(c *fw.Ctx) {
-	c.Rule("boundary enumeration: every (version 1..40, level, mode) with length capacity and capacity-1 under a forced version, and capacity with no version hint, masks rotating 0..7/none; random classes: digits, 45-set, byte mode with every value 0..255 (ISO-8859-1 hint), UTF-8 without hint (1-4 byte sequences, NUL, controls, U+FEFF, astral), every registered charset with text from its repertoire, Shift_JIS double-byte (kanji mode); both decode paths (encoder matrix -> decoder; writer image at random sizes/margins -> pure-barcode reader); distinct = distinct (text, options)")
+	c.Rule("boundary enumeration: every (version 1..40, level, mode) with length capacity and capacity-1 under a forced version, and capacity and capacity+1 with no version hint (the latter must land on the next version), masks rotating 0..7/none; random classes: digits, 45-set, byte mode with every value 0..255 (ISO-8859-1 hint), UTF-8 without hint (1-4 byte sequences, NUL, controls, U+FEFF, astral), every registered charset with text from its repertoire, Shift_JIS double-byte (kanji mode); both decode paths (encoder matrix -> decoder; writer image at random sizes/margins -> pure-barcode reader); distinct = distinct (text, options)")
 	c.Assume("'fits' is decided by qrref capacities (ISO 18004 tables), not by the library; charset hints are only combined with text drawn from that charset's repertoire (x/text codec round trip)")
 	// (a) boundaries
 	for v := 1; v <= 40; v++ {
@@ -143,14 +143,17 @@ func c01(c *fw.Ctx) {
 					if capv < 1 {
 						return
 					}
-					masks := []int{(v + int(l) + int(mode)) % 8, -1, (v*3 + int(mode)) % 8}
-					lens := []int{capv, capv - 1, capv}
-					forced := []int{v, v, 0}
-					for i := 0; i < 3; i++ {
+					masks := []int{(v + int(l) + int(mode)) % 8, -1, (v*3 + int(mode)) % 8, -1}
+					lens := []int{capv, capv - 1, capv, capv + 1}
+					forced := []int{v, v, 0, 0}
+					if v == 40 {
+						lens[3] = 0 // capacity+1 of version 40 does not fit anything (refusal is C13's)
+					}
+					for i := 0; i < 4; i++ {
 						if lens[i] < 1 {
 							continue
 						}
-						if forced[i] == 0 && qrref.MinVersion(lens[i], mode, l) != v {
+						if forced[i] == 0 && i == 2 && qrref.MinVersion(lens[i], mode, l) != v {
 							continue
 						}
 						text, _, charset := qrPayload(rng, mode, lens[i])
